@@ -90,7 +90,7 @@ TOKENS = [
 TOK = {n: (b, c) for n, b, c in TOKENS}
 NAMES = [n for n, _, _ in TOKENS]
 REDUCED = ["a", "sq", "dq", "lf", "pct", "bs", "sub", "at"]
-REDUCED3 = ["a", "sq", "dq", "lf", "pct", "bs", "sub", "at", "sp", "esc", "semi", "bsx"]
+REDUCED3 = ["a", "sq", "dq", "lf", "pct", "bs", "sub", "at", "sp", "esc", "semi", "bsx", "dash"]
 FIELDS = ["body", "hvalue", "hname", "path", "query", "method", "hosthdr"]
 
 HOST = b"example.com"
@@ -168,6 +168,8 @@ def special_cases():
                   content=gzip.compress(b"hello 'world'", mtime=0)))
     out.append(mk("shape", "bad-gzip-body", method=b"POST", headers=[(b"Content-Encoding", b"gzip"), CT_UTF8], content=b"not gzip"))
     out.append(mk("shape", "chunked", method=b"POST", headers=[(b"Transfer-Encoding", b"chunked"), CT_UTF8], content=b"abc"))
+    out.append(mk("shape", "multipart-body", method=b"POST", headers=[(b"content-type", b"multipart/form-data; boundary=b; charset=utf-8")],
+                  content=b'--b\r\nContent-Disposition: form-data; name="k"\r\n\r\nv\r\n--b--'))
     out.append(mk("shape", "asterisk", method=b"OPTIONS", path=b"*"))
     out.append(mk("shape", "query-empty-brackets", path=b"/p?a[]=1&a[]=2"))
     out.append(mk("shape", "query-brackets", path=b"/p?a[k]=1"))
@@ -191,8 +193,10 @@ def special_cases():
 def all_cases(tier):
     thorough = tier == "thorough"
     out = special_cases()
+    if not thorough:  # quick: body-validity matrix only for no content-type and charset=utf-8
+        out = [c for c in out if c["field"] != "binbody" or c["cls"] in ("ct-none", "ct-plain; chars")]
     for field in FIELDS:
-        for s in seqs(NAMES, 1):
+        for s in seqs(NAMES if thorough or field in ("body", "hvalue", "hname", "path") else REDUCED3, 1):
             out.append(field_case(field, s))
     for field in ("body", "hvalue"):
         for s in seqs(NAMES if thorough else (REDUCED3 if field == "body" else REDUCED), 2):
@@ -215,7 +219,7 @@ def all_cases(tier):
 # ---------------------------------------------------------------------------
 # the request as the check understands it (independent of export.py)
 
-TOKEN_RE = re.compile(rb"^[!#$%&'*+\-.^_`|~0-9A-Za-z]+$")
+TOKEN_RE = re.compile(rb"[!#$%&'*+\-.^_`|~0-9A-Za-z]+\Z")
 OWS = b" \t"
 WS = b" \t\r\n\x0b\x0c"
 # curl globs {..} sets and [..] ranges in URLs unless -g is given (a literal "[]" is passed through)
@@ -309,6 +313,8 @@ def flags(case):
                     f["b_trail_lf"] = True
                 if "\x00" in text:
                     f["b_nul"] = True
+                if text.startswith("-"):
+                    f["b_dash"] = True
             if text.startswith("@"):
                 f["b_at"] = True
         if case["method"] == b"GET":
@@ -597,6 +603,31 @@ def export_cmd(fn, case):
     return "ok", out
 
 
+def _norm(b: bytes) -> bytes:
+    return b.replace(b"\x00", b"").rstrip(b"\n")
+
+
+def judge_body(t: Tally, feats, case, want, got, body_problem):
+    """Exact body equality, split into three sub-clauses that are judged in sequence so that each defect class is
+    reported (and matched by a finding) on its own; together they are equivalent to `got == want`:
+      curl_body_exact_modulo_lf_nul   equal after dropping NUL bytes and trailing newlines on both sides
+      curl_body_trailing_newlines     (only if the first holds) equal after dropping NUL bytes
+      curl_body_nul_bytes             (only if both hold) equal
+    The trigger flags that belong to a later sub-clause are left out of the features of an earlier one."""
+    f1 = {k: v for k, v in feats.items() if k not in ("b_trail_lf", "b_nul")}
+    shape_ok = len(got) == len(want) and not body_problem
+    ok1 = shape_ok and all(_norm(g) == _norm(w) for g, w in zip(got, want))
+    t.judge("curl_body_exact_modulo_lf_nul", ok1, f1, case, [_norm(w) for w in want], [got, body_problem])
+    if not ok1:
+        return
+    f2 = {k: v for k, v in feats.items() if k != "b_nul"}
+    ok2 = all(g.replace(b"\x00", b"") == w.replace(b"\x00", b"") for g, w in zip(got, want))
+    t.judge("curl_body_trailing_newlines", ok2, f2, case, want, got)
+    if not ok2:
+        return
+    t.judge("curl_body_nul_bytes", got == want, feats, case, want, got)
+
+
 def one(case, t: Tally, verbose=False):
     options_ctx(case["opt"])
     fl = flags(case)
@@ -664,7 +695,7 @@ def one(case, t: Tally, verbose=False):
                     {"method": case["method"], "url": sorted(urls), "headers": exp_h}, problems)
             if vt is not None and vt[0]:
                 want = [vt[1].encode("utf-8")] if case["content"] else []
-                t.judge("curl_body_exact", r["data"] == want and not body_problem, feats, case, want, [r["data"], body_problem])
+                judge_body(t, feats, case, want, r["data"], body_problem)
             t.outcome(("curl", bool(other), bool(problems), r["eff_method"], len(r["headers"]), len(r["data"])))
         else:
             t.bad("curl_argv_encodes_request", feats, case, "curl started once", {"rc": res["rc"], "stderr": res["stderr"], "runs": len(res["runs"])})
@@ -754,7 +785,7 @@ def run(ctx):
     cases = all_cases(ctx.tier)
     ctx.bounds = {
         "tokens": {n: repr(b) for n, b, _ in TOKENS},
-        "one_field_deviates_one_token": FIELDS,
+        "one_field_deviates_one_token": FIELDS if ctx.thorough else "body, hvalue, hname, path over all tokens; query, method, hosthdr over %s" % REDUCED3,
         "two_tokens": {"body": "all tokens" if ctx.thorough else REDUCED3, "hvalue": "all tokens" if ctx.thorough else REDUCED,
                        "path,query,hname": REDUCED3 if ctx.thorough else []},
         "body_three_tokens_over": REDUCED if ctx.thorough else [],
